@@ -204,7 +204,10 @@ func runC10(r *Run) {
 				return err
 			}
 			r.S.Park("a.prog.chunk")
-			if p.seed%3 == 0 {
+			if p.seed%3 == 0 && !(p.cancel == 2 && p.delay <= 1500*time.Millisecond) {
+				// (not when this message's own context would run out while the intruders
+				// wait: the rest of the message would start with an expired context, and which
+				// ready case mu.lock's select takes then is the runtime's choice)
 				// another caller tries to write meanwhile with a short context of its
 				// own: it has to wait for this message to finish and gives up; its
 				// context bounds only that call, not the message in progress
